@@ -54,12 +54,22 @@ func RunFunction(P *Program, name string, cfg *Config, so SolveOpts) *FuncReport
 	rep := &FuncReport{Func: name}
 	fn := P.FindFunc(name)
 	c := P.Contracts[name]
+	moved := false
+	if fn == nil {
+		if fn = retargetFunc(P, name); fn != nil {
+			moved = true
+		}
+	}
 	if fn == nil {
 		rep.Unsupported = append(rep.Unsupported, "function not found: "+name)
 		return rep
 	}
 	rep.Bound = true
 	x := NewExec(P, cfg)
+	if moved {
+		x.nameOverride = name
+		x.Abstracted["function under contract moved: "+name+" is now "+CanonName(fn)]++
+	}
 	loadSpecDecls(x, P)
 	t0 := time.Now()
 	func() {
